@@ -50,6 +50,16 @@ func TestEmitCases(t *testing.T) {
 		raw, _ := json.Marshal(c)
 		out.Cases = append(out.Cases, item{Case: raw, Script: c.script(), Want: x.sections()})
 	}
+	gh := rapid.Custom(genHistory)
+	for i := 0; i < n; i++ {
+		c := gh.Example(i)
+		p := c.predict(c.Ops, nil)
+		if p.tooLong || p.maxShrink > slowShrink {
+			continue
+		}
+		raw, _ := json.Marshal(c)
+		out.Cases = append(out.Cases, item{Case: raw, Script: c.script(c.Ops), Want: p.steps})
+	}
 	b, _ := json.Marshal(out)
 	if err := os.WriteFile(path, b, 0o644); err != nil {
 		t.Fatal(err)
